@@ -1,161 +1,9 @@
 import AkVerif.Lemmas.CliGraph
-/-! Helper lemmas for C19, second part: namespaces, one parser scanning a one-option argument list,
-the top-level dispatch and the default-command insertion. -/
+import AkVerif.Model.CliArgs
+/-! Helper lemmas for C19, second part: option strings of a table, when `add_argument` succeeds,
+the declaration syntax. -/
 namespace CliGraph
 open Ak
-
-/-! ### namespaces -/
-
-/-- the namespace has the attribute `k` -/
-def Has (ns : Ns) (k : Name) : Prop := ∃ v, (k, v) ∈ ns
-
-theorem get_of_has {ns : Ns} {k : Name} (h : Has ns k) : ∃ v, ns.get k = some v := by
-  obtain ⟨v, hv⟩ := h
-  unfold Ns.get
-  cases hf : ns.find? (fun p => p.1 == k) with
-  | some p => exact ⟨p.2, rfl⟩
-  | none =>
-    have := List.find?_eq_none.mp hf (k, v) hv
-    simp at this
-
-theorem has_set_self (ns : Ns) (k : Name) (v : Val) : Has (ns.set k v) k := by
-  unfold Ns.set
-  split
-  · rename_i h
-    obtain ⟨p, hp, hk⟩ := List.any_eq_true.mp h
-    exact ⟨v, List.mem_map.mpr ⟨p, hp, by simp [hk]⟩⟩
-  · exact ⟨v, by simp⟩
-
-theorem has_set {ns : Ns} {k : Name} (h : Has ns k) (k' : Name) (v : Val) : Has (ns.set k' v) k := by
-  by_cases hk : k = k'
-  · exact hk ▸ has_set_self ns k v
-  · obtain ⟨v0, hv0⟩ := h
-    unfold Ns.set
-    split
-    · refine ⟨v0, List.mem_map.mpr ⟨(k, v0), hv0, ?_⟩⟩
-      simp [hk]
-    · exact ⟨v0, List.mem_append_left _ hv0⟩
-
-theorem has_assignPos {ns : Ns} {k : Name} (h : Has ns k) (ds ws : List Name) : Has (assignPos ds ws ns) k := by
-  induction ds generalizing ws ns with
-  | nil => exact h
-  | cons d ds ih => exact ih (has_set h d _) []
-
-theorem has_defaults {ns : Ns} {k : Name} (h : Has ns k) (os : List OptSpec) : Has (defaults os ns) k := by
-  induction os generalizing ns with
-  | nil => exact h
-  | cons o os ih =>
-    unfold defaults
-    split
-    · exact ih h
-    · apply ih
-      split
-      · exact h
-      · obtain ⟨v, hv⟩ := h
-        exact ⟨v, List.mem_append_left _ hv⟩
-
-theorem defaults_append (a b : List OptSpec) (ns : Ns) : defaults (a ++ b) ns = defaults b (defaults a ns) := by
-  induction a generalizing ns with
-  | nil => rfl
-  | cons o os ih =>
-    simp only [List.cons_append, defaults]
-    split <;> exact ih _
-
-theorem has_mergeNs_base {base : Ns} {k : Name} (h : Has base k) (sub : Ns) : Has (mergeNs base sub) k := by
-  induction sub generalizing base with
-  | nil => exact h
-  | cons p r ih => exact ih (has_set h p.1 p.2)
-
-theorem has_mergeNs {sub : Ns} {k : Name} (h : Has sub k) (base : Ns) : Has (mergeNs base sub) k := by
-  induction sub generalizing base with
-  | nil => obtain ⟨_, hv⟩ := h; cases hv
-  | cons p r ih =>
-    obtain ⟨v, hv⟩ := h
-    rcases List.mem_cons.mp hv with hv | hv
-    · have : Has (base.set p.1 p.2) k := by
-        have : p.1 = k := by rw [← hv]
-        exact this ▸ has_set_self base p.1 p.2
-      exact has_mergeNs_base this r
-    · exact ih ⟨v, hv⟩ _
-
-theorem post_ok {ns : Ns} (h : Has ns noColor) : ∃ ns', post ns = .ok ns' := by
-  obtain ⟨v, hv⟩ := get_of_has h
-  simp only [post, hv]
-  exact ⟨_, rfl⟩
-
-/-! ### one-option argument lists -/
-
-theorem finish_extras (tbl : List OptSpec) (ps : PS) : (finish tbl ps).extras = ps.extras := by
-  unfold finish closeRun
-  split <;> simp_all
-
-theorem finish_has (tbl : List OptSpec) {ps : PS} {k : Name} (h : Has ps.ns k) : Has (finish tbl ps).ns k := by
-  unfold finish closeRun
-  split
-  · exact has_assignPos h _ _
-  · rename_i ws hr
-    simp only [hr]
-    exact has_assignPos h _ _
-  · exact h
-
-def PS.init (tbl : List OptSpec) : PS := { ns := defaults tbl [], seen := [], run := .idle, extras := false }
-
-theorem runParser_eq (q : Parser) (args : List Name) :
-    runParser q args = match runP q.opts args (PS.init q.opts) with
-      | .error e => .error e
-      | .ok ps => if ps.extras then .error (.exit 2) else .ok ps.ns := rfl
-
-theorem mutexOk_init (o : OptSpec) (ps : PS) (hs : ps.seen = []) :
-    ∃ ps', mutexOk o ps = some ps' ∧ ps'.ns = ps.ns ∧ ps'.run = ps.run ∧ ps'.extras = ps.extras := by
-  unfold mutexOk
-  split
-  · simp [hs]
-  · exact ⟨ps, rfl, rfl, rfl, rfl⟩
-
-/-- a flag the table knows, alone on the command line -/
-theorem runParser_flag {q : Parser} {s : Name} {o : OptSpec} (hc : classify q.opts s = .opt o none)
-    (hk : o.kind = .flag) :
-    ∃ ns, runParser q [s] = .ok ns ∧ ∀ k, Has (defaults q.opts []) k → Has ns k := by
-  obtain ⟨ps1, h1, h2, h3, h4⟩ := mutexOk_init o (closeRun q.opts (PS.init q.opts)) (by simp [closeRun, PS.init])
-  have hcr : closeRun q.opts (PS.init q.opts) = PS.init q.opts := by simp [closeRun, PS.init]
-  rw [hcr] at h1 h2 h3 h4
-  refine ⟨(finish q.opts (setv o (.bool true) ps1)).ns, ?_, ?_⟩
-  · rw [runParser_eq]
-    simp only [runP, hc, hk, hcr, h1]
-    have : (finish q.opts (setv o (.bool true) ps1)).extras = false := by
-      rw [finish_extras]; simp [setv, h4, PS.init]
-    simp [this]
-  · intro k hkk
-    apply finish_has
-    simp only [setv, h2]
-    exact has_set hkk _ _
-
-/-- a value option the table knows, followed by a word -/
-theorem runParser_value {q : Parser} {s w : Name} {o : OptSpec} (hc : classify q.opts s = .opt o none)
-    (hk : o.kind = .value) (hw : classify q.opts w = .word) :
-    ∃ ns, runParser q [s, w] = .ok ns ∧ ∀ k, Has (defaults q.opts []) k → Has ns k := by
-  obtain ⟨ps1, h1, h2, h3, h4⟩ := mutexOk_init o (closeRun q.opts (PS.init q.opts)) (by simp [closeRun, PS.init])
-  have hcr : closeRun q.opts (PS.init q.opts) = PS.init q.opts := by simp [closeRun, PS.init]
-  rw [hcr] at h1 h2 h3 h4
-  refine ⟨(finish q.opts (setv o (.str w) ps1)).ns, ?_, ?_⟩
-  · rw [runParser_eq]
-    simp only [runP, hc, hk, hcr, h1, hw]
-    have : (finish q.opts (setv o (.str w) ps1)).extras = false := by
-      rw [finish_extras]; simp [setv, h4, PS.init]
-    simp [this]
-  · intro k hkk
-    apply finish_has
-    simp only [setv, h2]
-    exact has_set hkk _ _
-
-/-- an option the table does not know (and that abbreviates nothing) -/
-theorem runParser_unknown {q : Parser} {s : Name} (hc : classify q.opts s = .unknown) :
-    runParser q [s] = .error (.exit 2) := by
-  rw [runParser_eq]
-  simp only [runP, hc]
-  have : (finish q.opts { closeRun q.opts (PS.init q.opts) with extras := true }).extras = true := by
-    rw [finish_extras]
-  simp [this]
 
 theorem findOpt_some {tbl : List OptSpec} {s : Name} {o : OptSpec} (h : findOpt tbl s = some o) :
     o ∈ tbl ∧ o.isOpt = true ∧ s ∈ o.strings := by
@@ -190,23 +38,6 @@ theorem findOpt_none_iff {tbl : List OptSpec} {s : Name} : findOpt tbl s = none 
   rw [← findOpt_isSome_iff]
   cases findOpt tbl s <;> simp
 
-theorem classify_known {tbl : List OptSpec} {s : Name} {o : OptSpec} (hs : s.head? = some '-')
-    (h : findOpt tbl s = some o) : classify tbl s = .opt o none := by
-  cases s with
-  | nil => simp at hs
-  | cons c r =>
-    simp only [List.head?_cons, Option.some.injEq] at hs
-    subst hs
-    simp [classify, h]
-
-theorem prefixClash_false {tbl : List OptSpec} {s : Name}
-    (h : ∀ x ∈ optStrings tbl, ¬ s <+: x) : prefixClash tbl s = false := by
-  unfold prefixClash
-  apply Bool.eq_false_iff.mpr
-  intro hc
-  obtain ⟨x, hx, hp⟩ := List.any_eq_true.mp hc
-  exact h x hx (List.isPrefixOf_iff_prefix.mp hp)
-
 theorem takeWhile_ne_self {c : Char} {l : List Char} (h : c ∉ l) :
     l.takeWhile (· ≠ c) = l ∧ l.dropWhile (· ≠ c) = [] := by
   induction l with
@@ -217,124 +48,11 @@ theorem takeWhile_ne_self {c : Char} {l : List Char} (h : c ∉ l) :
     simp only [List.takeWhile_cons, List.dropWhile_cons, hx, ne_eq, not_false_eq_true, decide_true, if_true]
     exact ⟨by rw [this.1], this.2⟩
 
-/-- a long option string (`--name`, no `=`) that is no option string of the table and no prefix of one -/
-theorem classify_unknown_long {tbl : List OptSpec} {c : Char} {r : Name}
-    (heq : '=' ∉ ('-' :: '-' :: c :: r)) (hn : ('-' :: '-' :: c :: r) ∉ optStrings tbl)
-    (hp : ∀ x ∈ optStrings tbl, ¬ ('-' :: '-' :: c :: r) <+: x) :
-    classify tbl ('-' :: '-' :: c :: r) = .unknown := by
-  have h1 := findOpt_none_iff.mpr hn
-  obtain ⟨h2, h3⟩ := takeWhile_ne_self heq
-  unfold classify
-  simp only [h1, h2, h3, prefixClash_false hp]
-  simp
-
-/-! ### more facts used by the property file -/
-
-theorem has_of_get {ns : Ns} {k : Name} {v : Val} (h : ns.get k = some v) : Has ns k := by
-  unfold Ns.get at h
-  cases hf : ns.find? (fun p => p.1 == k) with
-  | none => simp [hf] at h
-  | some p =>
-    have h1 := List.mem_of_find?_eq_some hf
-    have h2 : p.1 = k := by simpa using List.find?_some hf
-    exact ⟨p.2, h2 ▸ h1⟩
-
-theorem get_append_of_some {ns : Ns} {k : Name} {v : Val} (h : ns.get k = some v) (ns' : Ns) :
-    (ns ++ ns').get k = some v := by
-  unfold Ns.get at h ⊢
-  rw [List.find?_append]
-  cases hf : ns.find? (fun p => p.1 == k) with
-  | none => simp [hf] at h
-  | some p => simpa [hf] using h
-
-theorem defaults_get {ns : Ns} {k : Name} {v : Val} (h : ns.get k = some v) (os : List OptSpec) :
-    (defaults os ns).get k = some v := by
-  induction os generalizing ns with
-  | nil => exact h
-  | cons o os ih =>
-    unfold defaults
-    split
-    · exact ih h
-    · apply ih
-      split
-      · exact h
-      · exact get_append_of_some h _
-
 theorem findOpt_append_left {a b : List OptSpec} {s : Name} {o : OptSpec} (h : findOpt a s = some o) :
     findOpt (a ++ b) s = some o := by
   unfold findOpt at h ⊢
   rw [List.find?_append, h]
   rfl
-
-/-- `-v` alone: the count option of a table whose default for that dest is a number -/
-theorem runParser_count {q : Parser} {s : Name} {o : OptSpec} {n : Nat}
-    (hc : classify q.opts s = .opt o none) (hk : o.kind = .count)
-    (hd : (defaults q.opts []).get (destOf o) = some (.nat n)) :
-    ∃ ns, runParser q [s] = .ok ns ∧ ∀ k, Has (defaults q.opts []) k → Has ns k := by
-  obtain ⟨ps1, h1, h2, h3, h4⟩ := mutexOk_init o (closeRun q.opts (PS.init q.opts)) (by simp [closeRun, PS.init])
-  have hcr : closeRun q.opts (PS.init q.opts) = PS.init q.opts := by simp [closeRun, PS.init]
-  rw [hcr] at h1 h2 h3 h4
-  have hd' : ps1.ns.get (destOf o) = some (.nat n) := by rw [h2]; exact hd
-  refine ⟨(finish q.opts (setv o (.nat (n + 1)) ps1)).ns, ?_, ?_⟩
-  · rw [runParser_eq]
-    simp only [runP, hc, hk, hcr, h1, hd']
-    have : (finish q.opts (setv o (.nat (n + 1)) ps1)).extras = false := by
-      rw [finish_extras]; simp [setv, h4, PS.init]
-    simp [this]
-  · intro k hkk
-    apply finish_has
-    simp only [setv, h2]
-    exact has_set hkk _ _
-
-/-- `--color` alone: the optional value is absent -/
-theorem runParser_optChoice {q : Parser} {s : Name} {o : OptSpec} {ch : List Name} {d : Name}
-    (hc : classify q.opts s = .opt o none) (hk : o.kind = .optChoice ch d) :
-    ∃ ns, runParser q [s] = .ok ns ∧ ∀ k, Has (defaults q.opts []) k → Has ns k := by
-  obtain ⟨ps1, h1, h2, h3, h4⟩ := mutexOk_init o (closeRun q.opts (PS.init q.opts)) (by simp [closeRun, PS.init])
-  have hcr : closeRun q.opts (PS.init q.opts) = PS.init q.opts := by simp [closeRun, PS.init]
-  rw [hcr] at h1 h2 h3 h4
-  refine ⟨(finish q.opts (setv o .none ps1)).ns, ?_, ?_⟩
-  · rw [runParser_eq]
-    simp only [runP, hc, hk, hcr, h1]
-    have : (finish q.opts (setv o .none ps1)).extras = false := by
-      rw [finish_extras]; simp [setv, h4, PS.init]
-    simp [this]
-  · intro k hkk
-    apply finish_has
-    simp only [setv, h2]
-    exact has_set hkk _ _
-
-/-- the top-level parser hands the arguments after a public command name to that command's parser -/
-theorem dispatch_public {st : St} {q : Parser} (hn : (names st.parsers).Nodup) (hq : q ∈ st.parsers)
-    (hpub : q.internal = false) (h1 : q.name ≠ ['-', 'h']) (h2 : q.name ≠ ['-', '-', 'h', 'e', 'l', 'p'])
-    (rest : List Name) :
-    dispatch st (some q.name :: rest.map some) =
-      match runParser q rest with
-      | .error e => .error e
-      | .ok sub => post (mergeNs [(command, .str q.name)] sub) := by
-  have : (rest.map some).filterMap id = rest := by simp
-  simp only [dispatch, h1, h2, or_self, if_false, findParser_public hn hq hpub, this]
-  rfl
-
-theorem withDefault_keep {cfg : Cfg} {st : St} {a : Name} (rest : List Name)
-    (h : a ∈ cfg.helpFirst ∨ a ∈ firstArgNames cfg st) :
-    withDefault cfg st (a :: rest) = some a :: rest.map some := by
-  have : (cfg.helpFirst.contains a || (firstArgNames cfg st).contains a) = true := by
-    simpa using h
-  unfold withDefault
-  simp only [this, if_true, List.map_cons]
-
-theorem withDefault_insert {cfg : Cfg} {st : St} (argv : List Name)
-    (h : ∀ a, argv.head? = some a → a ∉ cfg.helpFirst ∧ a ∉ firstArgNames cfg st) :
-    withDefault cfg st argv = st.default :: argv.map some := by
-  cases argv with
-  | nil => simp [withDefault]
-  | cons a rest =>
-    obtain ⟨h1, h2⟩ := h a rfl
-    have : (cfg.helpFirst.contains a || (firstArgNames cfg st).contains a) = false := by
-      simp [h1, h2]
-    unfold withDefault
-    simp only [this, Bool.false_eq_true, if_false]
 
 theorem mem_publicNames {ps : List Parser} {q : Parser} (hq : q ∈ ps) (hpub : q.internal = false) :
     q.name ∈ publicNames ps := by
@@ -355,15 +73,6 @@ theorem firstArgNames_sub {cfg : Cfg} {st : St} {a : Name} (h : a ∈ firstArgNa
   · unfold publicNames names at h
     obtain ⟨q, hq, rfl⟩ := List.mem_map.mp h
     exact List.mem_map.mpr ⟨q, (List.mem_filter.mp hq).1, rfl⟩
-
-/-- a short option string `-x` that is no option string of the table and no prefix of one -/
-theorem classify_unknown_short {tbl : List OptSpec} {c : Char} (hc1 : c ≠ '-') (hc2 : c ≠ '=')
-    (hc3 : c.isDigit = false) (hn : ['-', c] ∉ optStrings tbl) (hp : ∀ x ∈ optStrings tbl, ¬ ['-', c] <+: x) :
-    classify tbl ['-', c] = .unknown := by
-  have h1 := findOpt_none_iff.mpr hn
-  unfold classify
-  simp only [h1, prefixClash_false hp, hc3]
-  simp [hc1, Ne.symm hc2]
 
 /-! ### when does `add_argument` succeed -/
 
